@@ -50,11 +50,51 @@ CORPUS = [
     {"pre": [("assign", "i0", "3"), ("assign", "i1", "(i0 + 1)"), ("assign", "i0", "(i1 * 2)")],
      "main": [("if", [("(i0 > 10)", [("assign", "i0", "(i0 - 7)")]), ("(i0 > 5)", [("assign", "i0", "(i0 - 1)")]), ("(i0 > 2)", [("write", '"mid"')])],
                [("assign", "i0", "20")]), ("write", "i0")]},
+    # tuple declarations of all-new globals whose right-hand sides read re-assigned / accumulated variables
+    {"pre": [("assign", "i0", "40"), ("assign", "i0", "(i0 + 15)"), ("tuple", ["i1", "i2"], ["(i0 - 5)", "(i0 + 5)"]),
+             ("write", "i1"), ("write", "i2"), ("assign", "i3", "0"), ("for", "k0", "5", [("assign", "i3", "(i3 + k0)")]),
+             ("tuple", ["i4", "i5"], ["(i3 - 5)", "(i3 * 2)"]), ("write", "(i4 + i5)")],
+     "main": [("assign", "i0", "(i0 + 1)"), ("if", [("(i1 < i0 < i2)", [("write", "i2")])], [("write", "i4")])]},
     # first assignment inside a loop / a branch, read afterwards (promotion)
     {"pre": [("assign", "i0", "2"), ("for", "k0", "3", [("assign", "i5", "(k0 + i0)")]), ("write", "i5"),
              ("assign", "w0", "0"), ("while", "(w0 < 2)", [("assign", "i6", "(w0 * 5)"), ("assign", "w0", "(w0 + 1)")]), ("write", "i6")],
      "main": [("if", [("(i0 > 1)", [("assign", "i7", "5")])], [("assign", "i7", "7")]), ("write", "(i7 + i5)"), ("assign", "i0", "(i0 - 1)")]},
 ]
+
+
+LIST_CORPUS = [
+    "plain = [5, 1, 8, 3]\nplain.remove(8)\nmon.write(f\"{plain[0]} {plain[1]} {plain[2]}\")\nq = [4, 7, 4, 9, 7]\nq.remove(7)\n"
+    "mon.write(f\"{q[0]} {q[1]} {q[2]} {q[3]}\")\nq.append(4)\nq.remove(4)\nmon.write(f\"{q[0]} {q[1]} {q[2]} {q[3]}\")\n"
+    "t = [0, 1, 0]\nn = 0\nwhile True:\n    n += 1\n    t.append(n % 2)\n    t.remove(t[0])\n    mon.write(f\"{n}: {t[0]}{t[1]}{t[2]}\")\n    sleep(15)\n",
+]
+
+
+def gen_list_program(rng):
+    """int lists with duplicate values; append / remove(first occurrence) / index reads, every element observed
+    after every operation (lists are outside the statement model: firmware-vs-CPython oracle only; len() is not
+    used because the transpiler folds it, which is C03's business)"""
+    cur = [rng.choice([0, 1, 2, 4, 7]) for _ in range(rng.choice([3, 4, 5]))]
+    lines = [f"q = [{', '.join(map(str, cur))}]", "n = 0"]
+
+    def dump(pad=""):
+        return pad + 'mon.write(f"' + " ".join("{q[%d]}" % i for i in range(len(cur))) + '")'
+    for _ in range(rng.choice([2, 3, 4])):
+        if rng.random() < 0.5 and len(cur) > 2:
+            k = rng.randrange(len(cur))
+            lines.append(f"q.remove(q[{k}])" if rng.random() < 0.5 else f"q.remove({cur[k]})")
+            cur.remove(cur[k])
+        elif len(cur) < 7:
+            src, v = rng.choice([("1", 1), ("4", 4), ("7", 7), ("q[0]", cur[0]), ("q[%d]" % (len(cur) - 1), cur[-1]), ("(n + 2)", 2)])
+            lines.append(f"q.append({src})")
+            cur.append(v)
+        lines.append(dump())
+    if rng.random() < 0.8:
+        lines.append("while True:")
+        lines.append("    n += 1")
+        lines.append(f"    q.append({rng.choice(['(n % 2)', 'q[0]', 'q[1]', '(n % 3)'])})")
+        lines.append(f"    q.remove(q[{rng.randrange(len(cur))}])")
+        lines.append(dump("    "))
+    return "\n".join(lines) + "\n"
 
 
 PINS = {'"A0"': 14, '"A1"': 15, "4": 4}
@@ -466,6 +506,17 @@ def run_unit(ctx: C.Ctx):
             ctx.fail("firmware crashed", {"script": s, "input": p["input"], "loops": l}, "rc 0", r, key="fw-crash")
         elif r["status"] == "rejected" and r["exc"] != "ValueError":
             ctx.fail(f"transpiler raised {r['exc']} (not ValueError)", {"script": s}, "ValueError or success", r, key="reject-kind")
+    # lists (outside the statement model): firmware trace vs CPython trace only
+    lsrcs = [progen.HEADER + b for b in LIST_CORPUS] + [progen.HEADER + gen_list_program(rng) for _ in range(60 if thorough else 12)]
+    lloops = [rng.choice([0, 2, 3, 6]) for _ in lsrcs]
+    lstats = collections.Counter()
+    for s, l, r in zip(lsrcs, lloops, run_pair(lsrcs, ["" for _ in lsrcs], lloops)):
+        lstats[r["status"]] += 1
+        if r["status"] == "DIFF":
+            ctx.fail("firmware trace differs from CPython trace (list operations)", {"script": s, "input": "", "loops": l, "features": ["lists"]},
+                     r["py"], {"first_difference": r["diff"], "firmware": r["fw"]}, key="list-trace-diff")
+        elif r["status"] in ("nocompile", "fw-crash"):
+            ctx.fail("list script: " + r["status"], {"script": s, "loops": l}, "compilable, running C++", r.get("log") or r, key="list-" + r["status"])
     # known findings: replay witnesses
     listed = {f["id"]: f for f in ctx.findings if f.get("kind") != "fixed" and f["id"] in WITNESSES}
     if listed:
@@ -494,8 +545,8 @@ def run_unit(ctx: C.Ctx):
                     "constant_inputs": sum(1 for p in progs if len(const_inputs(p["input"])) == 3)}
     return {
         "distribution": distribution, "outside_guard_samples": outside[:3],
-        "evaluations": len(progs) + ir["ir_cases"] + ir.get("exec_cases", 0), "programs_by_status": dict(stats), "ir_correspondence": ir,
+        "evaluations": len(progs) + len(lsrcs) + ir["ir_cases"] + ir.get("exec_cases", 0), "list_programs_by_status": dict(lstats), "programs_by_status": dict(stats), "ir_correspondence": ir,
         "distinct_nontrivial": len({s for s, r in zip(srcs, res) if r["status"] == "equal" and len(r["py"]) >= 3}),
         "samples": [srcs[0][len(progen.HEADER):], srcs[-1][len(progen.HEADER):]],
-        "rule": "9 hand-written boundary programs (break guard, nested break, empty range, elif chain, shadowing loop variable, promotion out of for/while/if) + seeded programs from harness/progen.py over 6 feature sets (core ints; +floats; +helper functions; +tuple/swap; all; first assignment inside branches), N in 0..3 loop passes, scripted analog/digital inputs (half of them constant per pin); every program: firmware trace vs CPython trace (oracle); programs without helper functions: IR of Lang.Transl.transl vs IR of the real parser; those with constant inputs additionally: extracted pexec vs CPython trace and extracted transl+cexec vs firmware trace (Lang.StmtExec), and the number of them inside the guard of C01_stmt_preserve_partial is recorded; non-trivial = both sides ran and the common trace has >= 3 events",
+        "rule": "10 hand-written boundary programs (break guard, nested break, empty range, elif chain, shadowing loop variable, tuple declarations reading re-assigned variables, promotion out of for/while/if) + seeded programs from harness/progen.py over 6 feature sets (core ints; +floats; +helper functions; +tuple/swap; all; first assignment inside branches), N in 0..3 loop passes, scripted analog/digital inputs (half of them constant per pin); every program: firmware trace vs CPython trace (oracle); programs without helper functions: IR of Lang.Transl.transl vs IR of the real parser; those with constant inputs additionally: extracted pexec vs CPython trace and extracted transl+cexec vs firmware trace (Lang.StmtExec), and the number of them inside the guard of C01_stmt_preserve_partial is recorded; non-trivial = both sides ran and the common trace has >= 3 events",
     }
